@@ -7,6 +7,7 @@ import (
 	"context"
 	"fmt"
 	"log/slog"
+	"sort"
 	"strings"
 	"time"
 	"unicode/utf8"
@@ -253,6 +254,13 @@ type Tokenizer struct {
 	dialect    keywords.SQLDialect // SQL dialect for dialect-specific keyword recognition
 	logger     *slog.Logger        // Optional structured logger for verbose tracing
 	Comments   []models.Comment    // Comments captured during tokenization
+
+	// Last answer of toSQLPosition: byte posCacheIndex of the input is at column posCacheColumn of its line.
+	// A run asks for positions in increasing order (start and end of every token), so the next column is
+	// counted on from here instead of from the start of the line. posCacheColumn < 1 means "empty"; Reset
+	// empties the cache whenever the input changes.
+	posCacheIndex  int
+	posCacheColumn int
 }
 
 // New creates a new Tokenizer with default configuration and keyword support.
@@ -1643,23 +1651,26 @@ func (t *Tokenizer) readPunctuation() (models.Token, error) {
 
 // toSQLPosition converts an internal Position => a models.Location
 func (t *Tokenizer) toSQLPosition(pos Position) models.Location {
-	// Find the line containing pos
+	// Find the line containing pos (binary search over the line table)
 	line := 1
 	lineStart := 0
-
-	// Find the line number using lineStarts
-	for i := 0; i < len(t.lineStarts); i++ {
-		if t.lineStarts[i] > pos.Index {
-			break
-		}
-		line = i + 1
-		lineStart = t.lineStarts[i]
+	if n := t.linesUpTo(pos.Index); n > 0 {
+		line = n
+		lineStart = t.lineStarts[n-1]
 	}
 
 	// Calculate column by counting characters from line start
-	// Column is 1-based, so we start at 1
+	// Column is 1-based, so we start at 1. If the previous query lies between
+	// the start of this line and pos it is on this line too, and counting goes
+	// on from it: a long line is then walked once per run, not once per token.
 	column := 1
-	for i := lineStart; i < pos.Index && i < len(t.input); i++ {
+	from := lineStart
+	if t.posCacheColumn >= 1 && t.posCacheIndex >= lineStart && t.posCacheIndex <= pos.Index {
+		from = t.posCacheIndex
+		column = t.posCacheColumn
+	}
+	i := from
+	for ; i < pos.Index && i < len(t.input); i++ {
 		if t.input[i] == '\t' {
 			column += 4 // Treat tab as 4 spaces
 		} else {
@@ -1671,6 +1682,9 @@ func (t *Tokenizer) toSQLPosition(pos Position) models.Location {
 	if column < 1 {
 		column = 1
 	}
+
+	t.posCacheIndex = i
+	t.posCacheColumn = column
 
 	return models.Location{
 		Line:   line,
@@ -1731,4 +1745,10 @@ func (t *Tokenizer) hasCodeBeforeOnLine(idx int) bool {
 		}
 	}
 	return false
+}
+
+// linesUpTo returns the number of line starts at or before idx; lineStarts is
+// ascending, so the line containing idx starts at lineStarts[linesUpTo(idx)-1].
+func (t *Tokenizer) linesUpTo(idx int) int {
+	return sort.Search(len(t.lineStarts), func(i int) bool { return t.lineStarts[i] > idx })
 }
